@@ -66,8 +66,8 @@ impl Thread {
         thread.thread_index = j_obj
             .get("threadIndex")
             .and_then(|i| i.as_i64())
-            .ok_or(StoryError::BadJson("Invalid thread index".to_owned()))?
-            as usize;
+            .and_then(|i| usize::try_from(i).ok())
+            .ok_or(StoryError::BadJson("Invalid thread index".to_owned()))?;
 
         if let Some(j_thread_callstack) = j_obj
             .get("callstack")
@@ -79,8 +79,8 @@ impl Thread {
                         j_element_obj
                             .get("type")
                             .and_then(|t| t.as_i64())
-                            .ok_or(StoryError::BadJson("Invalid push/pop type".to_owned()))?
-                            as usize,
+                            .and_then(|t| usize::try_from(t).ok())
+                            .ok_or(StoryError::BadJson("Invalid push/pop type".to_owned()))?,
                     )?;
 
                     let mut pointer = pointer::NULL.clone();
@@ -98,8 +98,8 @@ impl Thread {
                         let pointer_index = j_element_obj
                             .get("idx")
                             .and_then(|i| i.as_i64())
-                            .ok_or(StoryError::BadJson("Invalid pointer index".to_owned()))?
-                            as i32;
+                            .and_then(|i| i32::try_from(i).ok())
+                            .ok_or(StoryError::BadJson("Invalid pointer index".to_owned()))?;
                         pointer.index = pointer_index;
 
                         if thread_pointer_result.approximate {
@@ -125,6 +125,14 @@ impl Thread {
                     thread.callstack.push(el);
                 }
             }
+        }
+
+        // Every thread of a running story has at least one element; an empty
+        // callstack would panic as soon as the thread becomes the current one.
+        if thread.callstack.is_empty() {
+            return Err(StoryError::BadJson(
+                "Thread without callstack elements".to_owned(),
+            ));
         }
 
         if let Some(prev_content_obj_path) =
@@ -425,17 +433,35 @@ impl CallStack {
         main_content_container: &Rc<Container>,
         j_obj: &Map<String, serde_json::Value>,
     ) -> Result<(), StoryError> {
-        self.threads.clear();
+        let j_threads = j_obj
+            .get("threads")
+            .and_then(|t| t.as_array())
+            .ok_or_else(|| StoryError::BadJson("Invalid callstack threads".to_owned()))?;
 
-        let j_threads = j_obj.get("threads").unwrap();
+        // Only replace the current threads once everything has been read, and
+        // never with an empty list: the callstack always has a current thread.
+        let mut threads = Vec::with_capacity(j_threads.len());
 
-        for j_thread_tok in j_threads.as_array().unwrap().iter() {
-            let j_thread_obj = j_thread_tok.as_object().unwrap();
+        for j_thread_tok in j_threads.iter() {
+            let j_thread_obj = j_thread_tok
+                .as_object()
+                .ok_or_else(|| StoryError::BadJson("Invalid callstack thread".to_owned()))?;
             let thread = Thread::from_json(main_content_container, j_thread_obj)?;
-            self.threads.push(thread);
+            threads.push(thread);
         }
 
-        self.thread_counter = j_obj.get("threadCounter").unwrap().as_i64().unwrap() as usize;
+        if threads.is_empty() {
+            return Err(StoryError::BadJson("Callstack without threads".to_owned()));
+        }
+
+        let thread_counter = j_obj
+            .get("threadCounter")
+            .and_then(|c| c.as_i64())
+            .and_then(|c| usize::try_from(c).ok())
+            .ok_or_else(|| StoryError::BadJson("Invalid thread counter".to_owned()))?;
+
+        self.threads = threads;
+        self.thread_counter = thread_counter;
         self.start_of_root = Pointer::start_of(main_content_container.clone()).clone();
 
         Ok(())
